@@ -131,6 +131,7 @@ def run(ctx):
     key_agreement(ctx)
     create_index_precheck(ctx)
     positional_rows(ctx)
+    storage_registration_order(ctx)
 
 
 # --------------------------------------------------------------------------- (d) registry key agreement
@@ -362,3 +363,25 @@ def positional_rows(ctx):
                         'line up with the schema', f'{f.file}:{t["l"]}')
     ctx.instance('f/Row.values', {'rule': 'C33.f', 'positional_remove_sites_seen_by_matcher': live})
     ctx.floor('C33.f matcher control: Vec::remove on Row.values', live, 1)
+
+
+def storage_registration_order(ctx):
+    """(h) IndexManager::create_index registers the metadata of an index together with its data"""
+    from ..engine.symexpr import Sym
+    prog = ctx.prog
+    ctx.rule('C33.h', 'IndexManager::create_index: no error return is reachable between the registration of the index metadata (self.indexes.insert) and '
+             'the registration of its data (self.index_data.insert): a failing build must not leave an index that is listed but has no data')
+    fs = [f for f in prog.fns.values() if f.unit == 'vibesql_storage' and not f.is_closure() and re.search(r'IndexManager>::create_index$', f.nice)]
+    ctx.require(len(fs) == 1, 'IndexManager::create_index not found')
+    f = fs[0]
+    s = Sym(f)
+    meta = [i for i, t in f.calls() if re.search(r'HashMap.*::insert', callee_name(t) or '') and s.op(t['args'][0]).endswith('self.indexes')]
+    data = [i for i, t in f.calls() if re.search(r'HashMap.*::insert', callee_name(t) or '') and s.op(t['args'][0]).endswith('self.index_data')]
+    ctx.require(meta and data, 'IndexManager::create_index: registrations not found')
+    errs, _ = err_exits_reachable(f, [x for m in meta for x in success_starts(f, m)], set(data), loop_model=True)
+    ctx.instance('h/IndexManager::create_index', {'rule': 'C33.h', 'metadata_registrations': len(meta), 'data_registrations': len(data),
+                                                  'error_exits_between_them': len(errs)})
+    if errs:
+        ctx.finding('h/IndexManager::create_index/metadata-before-data', 'IndexManager::create_index registers the metadata of the index before the fallible build of its '
+                    'data: when the build fails (bulk load of a disk-backed index) the index stays listed without data and queries planned on it fail with '
+                    '"Index not found"', f'{f.file}:{f.blocks[errs[0]]["t"].get("l", f.line)}')
